@@ -44,6 +44,28 @@ FIXTURES = [
 OPS = {"Add": "add", "Sub": "sub", "Mul": "mul", "Div": "div"}
 
 
+def _known_one(st, v):
+    """the path's facts say v == T::ONE (an equality test against the constant, in either operand order)"""
+    def un(x):
+        return x[1][1] if isinstance(x, tuple) and x and x[0] == "ref" and x[1][0] == "constval" else x
+
+    for f in st.facts:
+        t = f[1]
+        if f[0] != "eq" or not (isinstance(t, tuple) and t and t[0] == "call"):
+            continue
+        nm = str(t[1]).rsplit("::", 1)[-1]
+        if nm not in ("eq", "ne") or "PartialEq" not in str(t[1]):
+            continue
+        args = [un(x) for x in t[2] if not (isinstance(x, tuple) and x and x[0] == "mem")]
+        if len(args) != 2:
+            continue
+        equal = bool(f[2]) if nm == "eq" else not bool(f[2])
+        is_one = lambda x: isinstance(x, tuple) and x and x[0] == "assoc" and x[2] == "ONE"
+        if equal and ((args[0] == v and is_one(args[1])) or (args[1] == v and is_one(args[0]))):
+            return True
+    return False
+
+
 def _impls(crate, adt_key):
     out = []
     for imp in crate.impls:
@@ -59,9 +81,18 @@ def check(col, prog, tier, profile, fixture=None):
     names = [f["name"] for f in util.fields_of(adt)]
     A, B = names.index("a"), names.index("b")
     new = util.need_body(crate, "Rational::<T>::new")
-    norm = util.need_body(crate, "Rational::<T>::norm")
+    # the normaliser is recognised by what it does (a private, non-recursive method reachable from new() that
+    # takes the gcd of the two fields), under whatever name
+    norm = util.resolve_role(crate, new, "norm", lambda b_: not util.self_recursive(b_) and any(str((t_["fn"].get("resolved") or t_["fn"]).get("path") or t_["fn"].get("path")).split("::")[-1] == "gcd" for _bb, t_ in b_.calls()), "the normalising helper behind Rational::new", named_ok=lambda _b: True)
     helpers = util.private_helpers(crate, "Rational", exclude=[new, norm]) + [f for f in crate.bodies if not f.is_closure and f.kind == "Fn" and f.container is None and f.vis != "pub" and not util.self_recursive(f)]
-    An = util.analyser(helpers)
+    # forwarding operator impls on reference receivers (`impl Add<&Rational> for &Rational { self.clone() + rhs }`)
+    # are hops on the way to the primary by-reference impl: inlined
+    fwd = []
+    for imp_ in crate.impls:
+        if str(imp_.get("self_ty") or "").startswith("&") and "Rational<" in str(imp_.get("self_ty")) and (imp_.get("trait") or "").split("::")[-1] in OPS:
+            fwd += [crate.by_key[it_["key"]] for it_ in imp_["items"] if it_["key"] in crate.by_key]
+    helpers = helpers + [f_ for f_ in fwd if not util.self_recursive(f_)]
+    An = util.analyser(helpers, features=("fncall", "comb"))  # closures handed to private helpers / Option combinators are followed
     col.rule("N1", "every Rational construction is normalised, has b = ONE, or negates only the numerator; operators return Self::new", floor=8)
     col.rule("N2", "assigning / Copy operator forms resolve to the by-reference impl of the same family", floor=12)
     col.rule("N3", "PartialEq/Eq/Hash derived on the same fields; cmp = sign((self - rhs).a); partial_cmp = Some(cmp)", floor=5)
@@ -92,7 +123,7 @@ def check(col, prog, tier, profile, fixture=None):
                 continue
             if ret[0] == "agg" and isinstance(ret[1], tuple) and ret[1][0] == "adt":
                 bv, av = ret[2][B], ret[2][A]
-                if bv[0] == "assoc" and bv[2] == "ONE":
+                if (bv[0] == "assoc" and bv[2] == "ONE") or _known_one(st, bv):
                     col.ok("N1", loc, key, "denominator is ONE")
                     continue
                 # Neg: b is the operand's own b, a is its negation
@@ -159,7 +190,7 @@ def check(col, prog, tier, profile, fixture=None):
         b = crate.by_key[[it["key"] for it in imp["items"] if it["name"] == name][0]]
         I = An(b)
         for st in I.final_states:
-            calls = [e for e in st.event_list() if e.kind == "call" and e.extra.get("name") in (OPS[x] for x in OPS) or (e.kind == "call" and (e.extra.get("name") or "").endswith("_assign"))]
+            calls = [e for e in st.event_list() if e.kind == "call" and not e.extra.get("inlined") and (e.extra.get("name") in (OPS[x] for x in OPS) or (e.extra.get("name") or "").endswith("_assign"))]
             key = "%s|family" % fk(b)
             ok = len(calls) == 1
             detail = "%d operator calls" % len(calls)
@@ -186,7 +217,9 @@ def check(col, prog, tier, profile, fixture=None):
                     ok = ok and e.extra["argvals"][1] == ("param", 2, I.names.get(2))
                     detail = "calls %s::%s" % (ctr, e.extra.get("name"))
                 else:
-                    ok = ctr == base and tdef == byref[base].key and e.args[0] == ("param", 1, I.names.get(1)) and e.extra["argvals"][1] == ("param", 2, I.names.get(2)) and util.ret_term(st) == e.res
+                    p2_ = ("param", 2, I.names.get(2))
+                    rhs_ok = e.extra["argvals"][1] == p2_ or e.args[1] == ("ref", ("constval", p2_))
+                    ok = ctr == base and tdef == byref[base].key and e.args[0] == ("param", 1, I.names.get(1)) and rhs_ok and util.ret_term(st) == e.res
                     detail = "calls %s::%s" % (ctr, e.extra.get("name"))
             if ok:
                 col.ok("N2", b.loc(), key, "%s -> %s" % (tr, detail))
@@ -251,8 +284,14 @@ def check(col, prog, tier, profile, fixture=None):
         evs = st.event_list()
         g = [e for e in evs if e.kind == "call" and str(e.callee).split("::")[-1] == "gcd"]
         da = [e for e in evs if e.kind == "call" and e.extra.get("name") == "div_assign"]
+        if len(g) > 1:
+            # further gcd calls after the divisions (a debug_assert!(gcd(a, b) == ONE) post-condition) are not the divisor
+            used = [e for e in g if any((d_.extra.get("argvals") or [None, None])[1] == e.res for d_ in da)]
+            g = used or g[:1]
         okdiv = len(g) == 1 and len(da) == 2 and {e.args[0] for e in da} == {("ref", fa), ("ref", fb)} and all(e.extra["argvals"][1] == g[0].res for e in da)
         okdiv = okdiv and {strip_mem(x) for x in g[0].args} == {("load", None, fa), ("load", None, fb)}
+        if not okdiv and len(g) == 1 and not da and _known_one(st, g[0].res) and {strip_mem(x) for x in g[0].args} == {("load", None, fa), ("load", None, fb)}:
+            okdiv = True  # gcd == ONE on this path: dividing both fields by one is skipped
         neg = None
         for f in st.facts:
             t = f[1]
